@@ -259,8 +259,58 @@ def stacks(names, depth):
     return out
 
 
+PAIR_APPS = {"wsgi": ("echo", "cookies", "stream3", "file", "sse", "gen", "list_caps"), "asgi": ("echo", "cookies", "stream3", "file", "sse", "two", "three")}
+
+
+PAIR_STACKS = (("M",), ("E", "M"), ("M", "M", "E"))
+
+
+def run_pairs(r, iface, only=None, only_stack=None):
+    """Two requests in progress at once through one wrapped application object: each response must equal the one the same
+    request gets alone (no state of a middleware/NextResponse/CachedStream may be shared between requests)."""
+    from ..core.explore import dfs
+
+    d = tempfile.mkdtemp(prefix="c20-", dir=os.environ.get("VERIF_SCRATCH", "/tmp"))
+    try:
+        tmpfile = os.path.join(d, "f.txt")
+        with open(tmpfile, "wb") as f:
+            f.write(b"0123456789")
+        reqs = [SV.AReq(method="POST", headers=[("Content-Type", "text/plain"), ("X-Req", "A")], chunks=[b"body-", b"of-A"]),
+                SV.AReq(method="POST", headers=[("Content-Type", "text/plain"), ("X-Req", "B")], chunks=[b"B"]),
+                SV.AReq(method="GET", headers=[("Range", "bytes=1-2"), ("X-Req", "C")])]
+        for name in ([only] if only else PAIR_APPS[iface]):
+            for stack in ([PAIR_STACKS[only_stack]] if only_stack is not None else PAIR_STACKS):
+                app, _ = build(iface, name, stack, tmpfile)
+                solo = []
+                for q in reqs:
+                    res = run(iface, app, q.method, q.headers, q.chunks)
+                    solo.append((res.status, norm_headers(res), res.body, type(res.exc).__name__ if res.exc else None))
+                for i, j in ((0, 1), (0, 2), (1, 2), (1, 0)):
+                    w = {"pairs": iface, "app": name, "stack": list(stack), "a": i, "b": j}
+
+                    def check(results, how):
+                        r.count("evaluations")
+                        r.count("distinct_nontrivial")
+                        for k, res in zip((i, j), results):
+                            got = (res.status, norm_headers(res), res.body, type(res.exc).__name__ if res.exc else None)
+                            if got != solo[k]:
+                                r.violation(f"pairs:{iface}", w, f"{iface} app '{name}' under {'>'.join(stack)}: request {k} served while request {j if k == i else i} was in progress ({how}) differs from the same request alone: {got!r:.200} vs {solo[k]!r:.200}")
+                    if iface == "wsgi":
+                        for order in SV.merge_orders(3, 3):
+                            random.seed(7)
+                            check(SV.run_wsgi_pair(app, [SV.to_environ(reqs[i]), SV.to_environ(reqs[j])], order), f"order {order}")
+                    else:
+                        def runp(prefix):
+                            random.seed(7)
+                            return SV.run_asgi_pair(prefix, app, [SV.to_scope(reqs[i]), SV.to_scope(reqs[j])], [SV.to_messages(reqs[i]), SV.to_messages(reqs[j])])
+                        dfs(runp, lambda x: check(x.obs, f"schedule {x.choices}"), bound=2)
+        r.sample({"pairs": iface, "apps": ["echo", "cookies", "stream3", "file", "sse"], "stacks": ["M", "E>M", "M>M>E"]})
+    finally:
+        shutil.rmtree(d, ignore_errors=True)
+
+
 def shards(tier, seed):
-    out = []
+    out = [("pairs", iface, name, k) for iface in ("wsgi", "asgi") for name in PAIR_APPS[iface] for k in range(len(PAIR_STACKS))]
     for iface in ("wsgi", "asgi"):
         for name in list(recipes(iface, "/dev/null")) + list(raw_apps(iface)):
             out.append(("app", iface, name))
@@ -269,6 +319,9 @@ def shards(tier, seed):
 
 def run_shard(desc, tier):
     r = R()
+    if desc[0] == "pairs":
+        run_pairs(r, desc[1], desc[2], desc[3])
+        return r
     _, iface, name = desc
     d = tempfile.mkdtemp(prefix="c20-", dir=os.environ.get("VERIF_SCRATCH", "/tmp"))
     try:
@@ -330,6 +383,10 @@ def finish(merged, tier):
 
 
 def replay(w):
+    if "pairs" in w:
+        r = R()
+        run_pairs(r, w["pairs"], w["app"])
+        return bool(r.viol), {"violations": sorted(r.viol), "texts": [v[2][:300] for v in r.viol.values()]}
     r = run_shard(("app", w["iface"], w["app"]), "quick")
     hits = {k: v for k, v in r.viol.items() if v[1]["stack"] == w["stack"] and v[1]["method"] == w["method"] and v[1]["headers"] == w["headers"]}
     any_hits = hits or {k: v for k, v in r.viol.items()}
